@@ -70,6 +70,8 @@ type Interp struct {
 	qcache       map[string]cacheEntry
 	qcacheHits   int
 	focus        []*Term
+	errWhere     string
+	deferMemo    map[*ssa.Function]bool
 	rtErrT       types.Type
 }
 
@@ -99,7 +101,7 @@ func NewInterp(prog *ssa.Program, cfg *Config) *Interp {
 	in := &Interp{prog: prog, tb: NewTB(), cfg: cfg,
 		globals: map[*ssa.Global]*Cell{}, inited: map[*ssa.Package]bool{}, initing: map[*ssa.Package]bool{},
 		poisoned: map[*ssa.Global]string{}, consts: map[*ssa.Const]Value{}, summ: map[*ssa.Function]*summaryInfo{},
-		uniq: map[string]Value{}, qcache: map[string]cacheEntry{}}
+		uniq: map[string]Value{}, qcache: map[string]cacheEntry{}, deferMemo: map[*ssa.Function]bool{}}
 	in.solver = NewSolver(cfg.pipeTimeoutMS)
 	in.epoch = 1
 	return in
@@ -221,30 +223,51 @@ func (in *Interp) call0(fr *Frame) (ret Value) {
 	in.curFn = fn
 	defer func() {
 		in.depth--
-		in.curFn, in.curInstr = saveFn, saveInstr
-	}()
-	if fn.Recover != nil || hasDefer(fn) {
-		defer func() {
-			if r := recover(); r != nil {
-				gp, ok := r.(*goPanic)
-				if !ok {
-					panic(r)
-				}
-				in.curFn = fn
-				fr.panic = gp
-				in.runDefers(fr)
-				if fr.panic != nil {
-					panic(fr.panic)
-				}
-				if fn.Recover != nil {
-					ret = in.runBlocks(fr, fn.Recover)
-				} else {
-					ret = in.zeroResults(fn)
-				}
+		r := recover()
+		if r == nil {
+			in.curFn, in.curInstr = saveFn, saveInstr
+			return
+		}
+		gp, isGo := r.(*goPanic)
+		if !isGo {
+			if in.errWhere == "" {
+				in.errWhere = in.where()
+			}
+			in.curFn, in.curInstr = saveFn, saveInstr
+			panic(r)
+		}
+		if fn.Recover == nil && !in.hasDefer(fn) {
+			in.curFn, in.curInstr = saveFn, saveInstr
+			panic(r)
+		}
+		in.curFn = fn
+		fr.panic = gp
+		in.depth++
+		func() {
+			defer func() { in.depth-- }()
+			in.runDefers(fr)
+			if fr.panic != nil {
+				in.curFn, in.curInstr = saveFn, saveInstr
+				panic(fr.panic)
+			}
+			if fn.Recover != nil {
+				ret = in.runBlocks(fr, fn.Recover)
+			} else {
+				ret = in.zeroResults(fn)
 			}
 		}()
-	}
+		in.curFn, in.curInstr = saveFn, saveInstr
+	}()
 	return in.runBlocks(fr, fn.Blocks[0])
+}
+
+func (in *Interp) hasDefer(fn *ssa.Function) bool {
+	if v, ok := in.deferMemo[fn]; ok {
+		return v
+	}
+	v := hasDefer(fn)
+	in.deferMemo[fn] = v
+	return v
 }
 
 var hasDeferCache = map[*ssa.Function]bool{}
@@ -288,7 +311,7 @@ func (in *Interp) get(fr *Frame, v ssa.Value) Value {
 	case *ssa.Const:
 		return in.constVal(x)
 	case *ssa.Global:
-		return PtrV{in.globalCell(x)}
+		return PtrV{c: in.globalCell(x)}
 	case *ssa.Function:
 		return x
 	case *ssa.Builtin:
@@ -461,7 +484,7 @@ func (in *Interp) runBlocks(fr *Frame, start *ssa.BasicBlock) Value {
 				}
 				ch.buf = append(ch.buf, in.get(fr, x.X))
 			case *ssa.Store:
-				p := in.get(fr, x.Addr).(PtrV)
+				p := in.concPtr(in.get(fr, x.Addr).(PtrV))
 				if p.c == nil {
 					panic(in.rtPanic("invalid memory address or nil pointer dereference"))
 				}
@@ -486,7 +509,7 @@ func (in *Interp) runBlocks(fr *Frame, start *ssa.BasicBlock) Value {
 func (in *Interp) evalValue(fr *Frame, instr ssa.Value) Value {
 	switch x := instr.(type) {
 	case *ssa.Alloc:
-		return PtrV{in.newCell(x.Type().(*types.Pointer).Elem())}
+		return PtrV{c: in.newCell(x.Type().(*types.Pointer).Elem())}
 	case *ssa.BinOp:
 		return in.binop(x.Op, x.X.Type(), in.get(fr, x.X), in.get(fr, x.Y), x.Y.Type())
 	case *ssa.UnOp:
@@ -515,16 +538,26 @@ func (in *Interp) evalValue(fr *Frame, instr ssa.Value) Value {
 	case *ssa.Field:
 		return in.get(fr, x.X).(*StructV).f[x.Field]
 	case *ssa.FieldAddr:
-		p := in.get(fr, x.X).(PtrV)
+		p := in.concPtr(in.get(fr, x.X).(PtrV))
 		if p.c == nil {
 			panic(in.rtPanic("invalid memory address or nil pointer dereference"))
 		}
-		return PtrV{p.c.sub[x.Field]}
+		return PtrV{c: p.c.sub[x.Field]}
 	case *ssa.Index:
 		xv := in.get(fr, x.X)
 		idx := in.get(fr, x.Index).(*Term)
 		switch a := xv.(type) {
 		case *ArrayV:
+			if !idx.IsConst() && len(a.e) > 1 && len(a.e) <= 4096 {
+				if _, isT := a.e[0].(*Term); isT {
+					arr := in.newArr(x.Type(), len(a.e))
+					for i, e := range a.e {
+						in.elem(arr, i).v = e
+					}
+					p := in.symIndexAddr(arr, 0, len(a.e), idx, x.Index.Type()).(PtrV)
+					return in.symLoad(p.sym)
+				}
+			}
 			i := in.checkIndex(idx, x.Index.Type(), len(a.e))
 			return a.e[i]
 		case StrV:
@@ -536,14 +569,21 @@ func (in *Interp) evalValue(fr *Frame, instr ssa.Value) Value {
 		idx := in.get(fr, x.Index).(*Term)
 		switch a := xv.(type) {
 		case PtrV:
+			a = in.concPtr(a)
 			if a.c == nil {
 				panic(in.rtPanic("invalid memory address or nil pointer dereference"))
 			}
+			if !idx.IsConst() && scalarType(a.c.arr.et) && a.c.n > 1 && a.c.n <= 4096 {
+				return in.symIndexAddr(a.c.arr, a.c.off, a.c.n, idx, x.Index.Type())
+			}
 			i := in.checkIndex(idx, x.Index.Type(), a.c.n)
-			return PtrV{in.elem(a.c.arr, a.c.off+i)}
+			return PtrV{c: in.elem(a.c.arr, a.c.off+i)}
 		case SliceV:
+			if !idx.IsConst() && a.arr != nil && scalarType(a.arr.et) && a.len > 1 && a.len <= 4096 {
+				return in.symIndexAddr(a.arr, a.off, a.len, idx, x.Index.Type())
+			}
 			i := in.checkIndex(idx, x.Index.Type(), a.len)
-			return PtrV{in.elem(a.arr, a.off+i)}
+			return PtrV{c: in.elem(a.arr, a.off+i)}
 		}
 		panic(unsupported(fmt.Sprintf("IndexAddr on %T", xv)))
 	case *ssa.Lookup:
@@ -612,7 +652,7 @@ func (in *Interp) evalValue(fr *Frame, instr ssa.Value) Value {
 				return PtrV{}
 			}
 		}
-		return PtrV{&Cell{kind: 2, arr: s.arr, off: s.off, n: n, t: at, born: s.arr.born}}
+		return PtrV{c: &Cell{kind: 2, arr: s.arr, off: s.off, n: n, t: at, born: s.arr.born}}
 	case *ssa.TypeAssert:
 		return in.typeAssert(x, in.get(fr, x.X))
 	case *ssa.Select:
@@ -688,6 +728,65 @@ func (in *Interp) checkIndex(idx *Term, it types.Type, n int) int {
 		panic(in.rtPanic(fmt.Sprintf("index out of range [symbolic] with length %d", n)))
 	}
 	return int(in.concretize(wide, "index"))
+}
+
+// symIndexAddr: bounds check (forking on out-of-range) and a symbolic element pointer.
+func (in *Interp) symIndexAddr(arr *ArrObj, off, n int, idx *Term, it types.Type) Value {
+	var wide *Term
+	if isSigned(it) {
+		wide = in.tb.SExt(idx, 64)
+	} else {
+		wide = in.tb.ZExt(idx, 64)
+	}
+	inb := in.tb.Bin(OpULt, wide, in.tb.Const(64, uint64(n)))
+	if !in.branch(inb) {
+		panic(in.rtPanic(fmt.Sprintf("index out of range [symbolic] with length %d", n)))
+	}
+	return PtrV{sym: &SymRef{arr: arr, off: off, n: n, idx: wide}}
+}
+
+// symLoad reads arr[off+idx] as an ite chain, grouping equal values.
+func (in *Interp) symLoad(r *SymRef) Value {
+	in.noteSym()
+	vals := make([]*Term, r.n)
+	count := map[*Term]int{}
+	var z *Term
+	for i := 0; i < r.n; i++ {
+		c := r.arr.cells[r.off+i]
+		if c == nil {
+			if z == nil {
+				z = in.zero(r.arr.et).(*Term)
+			}
+			vals[i] = z
+		} else {
+			vals[i] = c.v.(*Term)
+		}
+		count[vals[i]]++
+	}
+	var def *Term
+	best := -1
+	for i := 0; i < r.n; i++ {
+		if c := count[vals[i]]; c > best {
+			best, def = c, vals[i]
+		}
+	}
+	res := def
+	for i := r.n - 1; i >= 0; i-- {
+		if vals[i] == def {
+			continue
+		}
+		res = in.tb.Ite(in.tb.Eq(r.idx, in.tb.Const(64, uint64(i))), vals[i], res)
+	}
+	return res
+}
+
+// concPtr turns a symbolic element pointer into a concrete one by forking on the index.
+func (in *Interp) concPtr(p PtrV) PtrV {
+	if p.sym == nil {
+		return p
+	}
+	i := int(in.concretize(p.sym.idx, "symbolic element pointer"))
+	return PtrV{c: in.elem(p.sym.arr, p.sym.off+i)}
 }
 
 func (in *Interp) strIndex(s StrV, idx *Term, it types.Type) Value {
@@ -773,6 +872,9 @@ func (in *Interp) unop(fr *Frame, x *ssa.UnOp) Value {
 	switch x.Op {
 	case token.MUL:
 		p := v.(PtrV)
+		if p.sym != nil {
+			return in.symLoad(p.sym)
+		}
 		if p.c == nil {
 			panic(in.rtPanic("invalid memory address or nil pointer dereference"))
 		}
